@@ -839,9 +839,9 @@ def redirects(ck):
             fut_names |= {p_ for p_ in q.assigned_paths(fnode.ast) if "." not in p_}
     regs = []
     for c in q.calls(fn):
-        if q.call_attr(c) == "add_done_callback" and q.receiver(c) in fut_names and c.args:
-            regs.append((c, c.args[0]))
-        elif q.call_attr(c) in ("future_add_done_callback", "add_future") and len(c.args) >= 2 and q.dotted(c.args[0]) in fut_names:
+        if q.call_attr(c) == "add_done_callback" and c.args and (q.receiver(c) in fut_names or (isinstance(c.func, ast.Attribute) and c.func.value is fetch_call)):
+            regs.append((c, c.args[0]))  # on the named future, or chained directly on the fetch call
+        elif q.call_attr(c) in ("future_add_done_callback", "add_future") and len(c.args) >= 2 and (q.dotted(c.args[0]) in fut_names or c.args[0] is fetch_call):
             regs.append((c, c.args[1]))
     if not regs:
         raise AnalysisError("cannot see how the redirected fetch's outcome is handed to the original callback")
